@@ -281,20 +281,24 @@ Fixpoint m_state (m : mapp) (ops : list op) : mapp :=
   end.
 
 (* ---- where the code departs from the byte-array specification (see Single.v) ----
-   stale bytes exist when the current chunk file extends beyond its fileOffset or chunk files
-   with a higher id than the current one are still in the directory (SetOffset into an earlier
-   chunk leaves them; Open takes the LAST file of the directory as the current chunk) *)
-Definition m_dirty (m : mapp) : bool :=
-  existsb (fun '(i, _) => m_cur m <? i) (m_disk m) || h_tail (m_app m) (cur_file m).
+   SetOffset into an earlier chunk leaves the chunk files with a higher id in the directory.
+   They are stale, but ReadAt walks into them when a read runs past the end of the current chunk,
+   and Open takes the LAST file of the directory as the current chunk (and the file end of that
+   chunk as its size, so a stale tail of the current chunk file counts too). *)
+Definition m_stale (m : mapp) : bool := existsb (fun '(i, _) => m_cur m <? i) (m_disk m).
 
-(* everything below this global offset is in chunk files *)
-Definition m_flushed (m : mapp) : N := m_cur m * m_fs m + h_fo (m_app m).
+Definition m_dirty (m : mapp) : bool := m_stale m || h_tail (m_app m) (cur_file m).
+
+(* end of the current chunk *)
+Definition m_end (m : mapp) : N := (m_cur m + 1) * m_fs m.
 
 Definition m_risky (m : mapp) (o : op) : bool :=
   match o with
   | ReadAt n off =>
-      negb (m_closed m) && m_dirty m && (m_flushed m <? off + n) &&
-      ((off <? m_flushed m) || (m_offset m <? off + n))
+      (* stale chunk files exist and the read goes past the end of the current chunk, which it
+         does when that chunk is full or the read starts beyond it *)
+      negb (m_closed m) && m_stale m && (m_end m <? off + n) &&
+      ((m_offset m =? m_end m) || (m_end m <=? off))
   | Reopen _ => m_closed m && m_dirty m
   | _ => false
   end.
